@@ -308,6 +308,11 @@ func replay(steps []step, n, me int) *divergence {
 		if pending > 0 && !nextIsTick {
 			return &divergence{i, "C11", "tick-extra", "after " + what + " the node queued an epoch for the cached-verification loop, the specification has none"}
 		}
+		// the chain core and the finality engine agree on the best block whenever the node is at rest (BestIsForkChoice,
+		// checked on the node itself so that it is seen at every call of a long walk, not only at its end)
+		if eb, cb := cs.BestChain(), env.Chain.BestBlockHash(); eb != *cb {
+			return &divergence{i, "C11", "chain-behind-engine", fmt.Sprintf("after %s: the finality engine's fork choice is block %d, the chain's best block is still %d (no reorganisation was requested)", what, w.IDOf[eb], w.IDOf[*cb])}
+		}
 		if st.Obs == nil {
 			continue
 		}
